@@ -66,6 +66,13 @@ PROPS = {
             "that is the family's density over the reals (exp-of-polynomial domain) and a tail routine using that family's R; "
             "(3) structural rules inside `ziggurat` (index mask/shift/bounds, layer-index agreement, tail entry). "
             "Not decided: the sampled law of StandardNormal/Exp1 itself."),
+    "C01": ("rules_c01", "other",
+            "Decided (agreement with the reference algorithm, not the law itself): for the Gamma samplers (Marsaglia-Tsang incl. the squeeze "
+            "constants and the shape<1 boost), Normal/LogNormal/Exp, ChiSquared, StudentT, FisherF, InverseGaussian (Michael-Schucany-Haas root "
+            "selection), NormalInverseGaussian, SkewNormal (max/min representation), Pert — every comparison of the implementation is a test of "
+            "the reference, the decision functions agree on every truth assignment, every returned term and every derived constructor constant is "
+            "identical over the reals (computer algebra on terms extracted from the MIR). Not decided: that the references have the documented "
+            "law (cited), rounding, Beta (Cheng BB/BC), the ziggurat primitives (C06), the single-draw transforms (C13)."),
     "C10": ("rules_c10", "other",
             "Decided (structural clauses of the descent): the target is random_range(ZERO..root subtotal); in one iteration of the descent, on every "
             "feasible path, each comparison is target' < subtotal(child) with child in {2i+1, 2i+2} and target' = target minus exactly the "
